@@ -35,7 +35,14 @@ pub const MESSAGE_TYPES: &[&str] = &[
     "Value",
 ];
 
-pub const TAGGABLE: &[&str] = &["CoseSign", "CoseSign1", "CoseMac", "CoseMac0", "CoseEncrypt", "CoseEncrypt0"];
+pub const TAGGABLE: &[&str] = &[
+    "CoseSign",
+    "CoseSign1",
+    "CoseMac",
+    "CoseMac0",
+    "CoseEncrypt",
+    "CoseEncrypt0",
+];
 
 #[derive(Clone, Copy)]
 pub struct GenCfg {
@@ -47,10 +54,16 @@ pub struct GenCfg {
 
 impl GenCfg {
     pub fn small() -> GenCfg {
-        GenCfg { big: 300, big_chance: 2 }
+        GenCfg {
+            big: 300,
+            big_chance: 2,
+        }
     }
     pub fn medium() -> GenCfg {
-        GenCfg { big: 5000, big_chance: 2 }
+        GenCfg {
+            big: 5000,
+            big_chance: 2,
+        }
     }
 }
 
@@ -83,8 +96,33 @@ pub fn gen_text(rng: &mut Rng, cfg: &GenCfg) -> String {
     // 1 text in 6 is shaped like the structured strings applications put into these fields: URIs
     // with (well-formed and malformed) percent escapes, e-mail addresses, dates, media types
     if rng.chance(1, 6) {
-        const SCHEMES: &[&str] = &["http", "https", "urn", "coap+tcp", "a", "tag", "mailto", "1bad", ""];
-        const PARTS: &[&str] = &["//example.com/", "a", "%41", "%", "%€", "%4", "%zz", "%é", "%4𝄞", "?q=1", "#f", "@", ":", ".", "+", "=", "&", "é", "€", "2026-10-01T00:00:00Z", "user@example.com", " "];
+        const SCHEMES: &[&str] = &[
+            "http", "https", "urn", "coap+tcp", "a", "tag", "mailto", "1bad", "",
+        ];
+        const PARTS: &[&str] = &[
+            "//example.com/",
+            "a",
+            "%41",
+            "%",
+            "%€",
+            "%4",
+            "%zz",
+            "%é",
+            "%4𝄞",
+            "?q=1",
+            "#f",
+            "@",
+            ":",
+            ".",
+            "+",
+            "=",
+            "&",
+            "é",
+            "€",
+            "2026-10-01T00:00:00Z",
+            "user@example.com",
+            " ",
+        ];
         let mut s = String::new();
         s.push_str(SCHEMES[rng.below(SCHEMES.len())]);
         s.push(':');
@@ -93,8 +131,15 @@ pub fn gen_text(rng: &mut Rng, cfg: &GenCfg) -> String {
         }
         return s;
     }
-    const ALPH: &[&str] = &["a", "b", "z", "0", "-", "_", "é", "€", "𝄞", " ", "/", ":", "%", ".", "@", "?", "#", "=", "+", "\"", "\\", "\u{0}", "\n", ";"];
-    let n = if rng.chance(cfg.big_chance, 64) { rng.range(20, cfg.big.min(5000)) } else { rng.range(0, 12) };
+    const ALPH: &[&str] = &[
+        "a", "b", "z", "0", "-", "_", "é", "€", "𝄞", " ", "/", ":", "%", ".", "@", "?", "#", "=",
+        "+", "\"", "\\", "\u{0}", "\n", ";",
+    ];
+    let n = if rng.chance(cfg.big_chance, 64) {
+        rng.range(20, cfg.big.min(5000))
+    } else {
+        rng.range(0, 12)
+    };
     let mut s = String::new();
     while s.len() < n {
         s.push_str(ALPH[rng.below(ALPH.len())]);
@@ -114,7 +159,11 @@ pub fn gen_value(rng: &mut Rng, depth: usize) -> MValue {
         v
     } else {
         match rng.below(3) {
-            0 => MValue::Array((0..rng.below(4)).map(|_| gen_value(rng, depth + 1)).collect()),
+            0 => MValue::Array(
+                (0..rng.below(4))
+                    .map(|_| gen_value(rng, depth + 1))
+                    .collect(),
+            ),
             1 => {
                 // below the typed level a map is opaque to coset: keys may repeat, be of any kind
                 let n = rng.below(4);
@@ -122,7 +171,13 @@ pub fn gen_value(rng: &mut Rng, depth: usize) -> MValue {
                 MValue::Map(
                     (0..n)
                         .map(|i| {
-                            let k = if dup { MValue::Int(1) } else if rng.chance(1, 4) { MValue::Text(["a", "b", "a"][i % 3].to_string()) } else { MValue::Int(i as i128) };
+                            let k = if dup {
+                                MValue::Int(1)
+                            } else if rng.chance(1, 4) {
+                                MValue::Text(["a", "b", "a"][i % 3].to_string())
+                            } else {
+                                MValue::Int(i as i128)
+                            };
                             (k, gen_value(rng, depth + 1))
                         })
                         .collect(),
@@ -142,7 +197,11 @@ fn gen_alg(rng: &mut Rng) -> MRegP {
     }
 }
 
-fn gen_extra_labels(rng: &mut Rng, n: usize, forbidden: std::ops::RangeInclusive<i64>) -> Vec<MLabel> {
+fn gen_extra_labels(
+    rng: &mut Rng,
+    n: usize,
+    forbidden: std::ops::RangeInclusive<i64>,
+) -> Vec<MLabel> {
     let mut out: Vec<MLabel> = Vec::new();
     while out.len() < n {
         let l = if rng.chance(1, 4) {
@@ -178,13 +237,21 @@ pub fn gen_header(rng: &mut Rng, cfg: &GenCfg, depth: usize) -> MHeader {
             h.crit.push(if rng.chance(1, 4) {
                 MReg::Text("crit".into())
             } else {
-                MReg::Assigned(if rng.bool() { *rng.pick(all_header_params()) } else { *rng.pick(&HEADER_PARAMS[..HEADER_PARAMS.len() - 1]) })
+                MReg::Assigned(if rng.bool() {
+                    *rng.pick(all_header_params())
+                } else {
+                    *rng.pick(&HEADER_PARAMS[..HEADER_PARAMS.len() - 1])
+                })
             });
         }
     }
     if rng.chance(1, 3) {
         h.content_type = Some(if rng.bool() {
-            MReg::Assigned(if rng.bool() { *rng.pick(all_content_formats()) } else { *rng.pick(CONTENT_FORMATS) })
+            MReg::Assigned(if rng.bool() {
+                *rng.pick(all_content_formats())
+            } else {
+                *rng.pick(CONTENT_FORMATS)
+            })
         } else {
             MReg::Text(["text/plain", "application/cbor", "a/b"][rng.below(3)].to_string())
         });
@@ -199,7 +266,8 @@ pub fn gen_header(rng: &mut Rng, cfg: &GenCfg, depth: usize) -> MHeader {
     }
     if depth < 2 && rng.chance(1, 5) {
         for _ in 0..rng.range(1, 2) {
-            h.counter_signatures.push(gen_signature(rng, cfg, depth + 1));
+            h.counter_signatures
+                .push(gen_signature(rng, cfg, depth + 1));
         }
     }
     if rng.chance(1, 3) {
@@ -237,7 +305,9 @@ pub fn gen_recipient(rng: &mut Rng, cfg: &GenCfg, depth: usize) -> MRecipient {
         unprotected: gen_header(rng, cfg, 1),
         ciphertext: gen_opt_bytes(rng, cfg),
         recipients: if depth < 2 && rng.chance(1, 4) {
-            (0..rng.range(1, 2)).map(|_| gen_recipient(rng, cfg, depth + 1)).collect()
+            (0..rng.range(1, 2))
+                .map(|_| gen_recipient(rng, cfg, depth + 1))
+                .collect()
         } else {
             vec![]
         },
@@ -249,7 +319,9 @@ pub fn gen_sign(rng: &mut Rng, cfg: &GenCfg) -> MSign {
         protected: gen_protected(rng, cfg, 0),
         unprotected: gen_header(rng, cfg, 0),
         payload: gen_opt_bytes(rng, cfg),
-        signatures: (0..rng.range(0, 3)).map(|_| gen_signature(rng, cfg, 1)).collect(),
+        signatures: (0..rng.range(0, 3))
+            .map(|_| gen_signature(rng, cfg, 1))
+            .collect(),
     }
 }
 
@@ -268,7 +340,9 @@ pub fn gen_mac(rng: &mut Rng, cfg: &GenCfg) -> MMac {
         unprotected: gen_header(rng, cfg, 0),
         payload: gen_opt_bytes(rng, cfg),
         tag: gen_bytes(rng, cfg),
-        recipients: (0..rng.range(0, 2)).map(|_| gen_recipient(rng, cfg, 0)).collect(),
+        recipients: (0..rng.range(0, 2))
+            .map(|_| gen_recipient(rng, cfg, 0))
+            .collect(),
     }
 }
 
@@ -286,7 +360,9 @@ pub fn gen_encrypt(rng: &mut Rng, cfg: &GenCfg) -> MEncrypt {
         protected: gen_protected(rng, cfg, 0),
         unprotected: gen_header(rng, cfg, 0),
         ciphertext: gen_opt_bytes(rng, cfg),
-        recipients: (0..rng.range(0, 2)).map(|_| gen_recipient(rng, cfg, 0)).collect(),
+        recipients: (0..rng.range(0, 2))
+            .map(|_| gen_recipient(rng, cfg, 0))
+            .collect(),
     }
 }
 
@@ -300,7 +376,11 @@ pub fn gen_encrypt0(rng: &mut Rng, cfg: &GenCfg) -> MEncrypt0 {
 
 pub fn gen_key(rng: &mut Rng, cfg: &GenCfg) -> MKey {
     let mut k = MKey {
-        kty: if rng.chance(1, 6) { MReg::Text("custom-kty".into()) } else { MReg::Assigned(*rng.pick(&KEY_TYPES[1..])) },
+        kty: if rng.chance(1, 6) {
+            MReg::Text("custom-kty".into())
+        } else {
+            MReg::Assigned(*rng.pick(&KEY_TYPES[1..]))
+        },
         ..Default::default()
     };
     if rng.bool() {
@@ -311,7 +391,11 @@ pub fn gen_key(rng: &mut Rng, cfg: &GenCfg) -> MKey {
     }
     if rng.chance(1, 3) {
         for _ in 0..rng.range(1, 3) {
-            k.key_ops.insert(if rng.chance(1, 5) { MReg::Text("op".into()) } else { MReg::Assigned(*rng.pick(all_key_ops())) });
+            k.key_ops.insert(if rng.chance(1, 5) {
+                MReg::Text("op".into())
+            } else {
+                MReg::Assigned(*rng.pick(all_key_ops()))
+            });
         }
     }
     if rng.chance(1, 4) {
@@ -319,7 +403,11 @@ pub fn gen_key(rng: &mut Rng, cfg: &GenCfg) -> MKey {
     }
     let n = rng.range(0, 4);
     for l in gen_extra_labels(rng, n, 1..=5) {
-        let v = if rng.bool() { MValue::Bytes(gen_bytes(rng, cfg)) } else { gen_value(rng, 0) };
+        let v = if rng.bool() {
+            MValue::Bytes(gen_bytes(rng, cfg))
+        } else {
+            gen_value(rng, 0)
+        };
         k.params.push((l, v));
     }
     k
@@ -361,7 +449,7 @@ pub fn gen_claims(rng: &mut Rng, cfg: &GenCfg) -> MClaims {
     while names.len() < n {
         let nm = match rng.below(3) {
             0 => MRegP::Assigned(*rng.pick(&[-260i64, -259, -258, -257, 8, 9, 38, 39, 40])),
-            1 => MRegP::Private(-65537 - rng.below(100) as i64),
+            1 => MRegP::Private(if rng.chance(1, 4) { *rng.pick(&[i64::MIN, i64::MIN + 1, -(1i64 << 32), -(1i64 << 31) - 1, -65537, -65538]) } else { -65537 - rng.below(100) as i64 }),
             _ => MRegP::Text(["claim", "", "x"][rng.below(3)].to_string()),
         };
         if !names.contains(&nm) {
@@ -390,7 +478,11 @@ pub fn gen_supp(rng: &mut Rng, cfg: &GenCfg) -> MSuppPubInfo {
     MSuppPubInfo {
         key_data_length: *rng.pick(KEY_DATA_LENGTHS),
         protected: gen_protected(rng, cfg, 1),
-        other: if rng.bool() { Some(gen_bytes(rng, cfg)) } else { None },
+        other: if rng.bool() {
+            Some(gen_bytes(rng, cfg))
+        } else {
+            None
+        },
     }
 }
 
@@ -417,7 +509,11 @@ pub fn gen_item(rng: &mut Rng, ty: &str, cfg: &GenCfg) -> Item {
         "CoseEncrypt0" => gen_encrypt0(rng, cfg).to_item(),
         "CoseRecipient" => gen_recipient(rng, cfg, 0).to_item(),
         "CoseKey" => gen_key(rng, cfg).to_item(),
-        "CoseKeySet" => Item::array((0..rng.range(0, 3)).map(|_| gen_key(rng, cfg).to_item()).collect()),
+        "CoseKeySet" => Item::array(
+            (0..rng.range(0, 3))
+                .map(|_| gen_key(rng, cfg).to_item())
+                .collect(),
+        ),
         "ClaimsSet" => gen_claims(rng, cfg).to_item(),
         "PartyInfo" => gen_party(rng, cfg).to_item(),
         "SuppPubInfo" => gen_supp(rng, cfg).to_item(),
@@ -483,7 +579,11 @@ pub fn gen_built(rng: &mut Rng, ty: &str, cfg: &GenCfg) -> Option<crate::endpoin
         "CoseEncrypt0" => D::Encrypt0(gen_encrypt0(rng, cfg).to_coset()),
         "CoseRecipient" => D::Recipient(gen_recipient(rng, cfg, 0).to_coset()),
         "CoseKey" => D::Key(gen_key(rng, cfg).to_coset()),
-        "CoseKeySet" => D::KeySet(coset::CoseKeySet((0..rng.range(0, 3)).map(|_| gen_key(rng, cfg).to_coset()).collect())),
+        "CoseKeySet" => D::KeySet(coset::CoseKeySet(
+            (0..rng.range(0, 3))
+                .map(|_| gen_key(rng, cfg).to_coset())
+                .collect(),
+        )),
         "ClaimsSet" => D::Claims(gen_claims(rng, cfg).to_coset()),
         "PartyInfo" => D::Party(gen_party(rng, cfg).to_coset()),
         "SuppPubInfo" => D::SuppPub(gen_supp(rng, cfg).to_coset()),
@@ -498,7 +598,11 @@ pub fn gen_built(rng: &mut Rng, ty: &str, cfg: &GenCfg) -> Option<crate::endpoin
             }
             D::Kdf(b.build())
         }
-        "Label" => D::Label(if rng.chance(1, 4) { coset::Label::Text(gen_text(rng, cfg)) } else { coset::Label::Int(*rng.pick(LABELS)) }),
+        "Label" => D::Label(if rng.chance(1, 4) {
+            coset::Label::Text(gen_text(rng, cfg))
+        } else {
+            coset::Label::Int(*rng.pick(LABELS))
+        }),
         _ => return None,
     })
 }
